@@ -38,4 +38,13 @@ BENIGN = [
      "edits": [(RH, "        state.emit(\n            EventName.MAX_ATTEMPTS_EXCEEDED.value,\n            attempt,\n            0.0,\n            state.last_class,\n            exception,", "        state.emit(\n            EventName.MAX_ATTEMPTS_EXCEEDED.value,\n            state.policy.max_attempts,\n            0.0,\n            state.last_class,\n            exception,")]},
     {"id": "benign_record_cancel_helper_inlined",
      "edits": [("src/redress/policy/execution.py", "    if ctx.breaker is not None:\n        ctx.breaker.record_cancel()", "    breaker = ctx.breaker\n    if breaker is None:\n        return\n    breaker.record_cancel()")]},
+    {"id": "benign_strategy_call_wrapped_reraise",
+     "edits": [(ST, "        sleep_s = strategy(ctx)\n", "        try:\n            sleep_s = strategy(ctx)\n        except Exception:\n            raise\n")]},
+    {"id": "benign_adaptive_failures_counted_by_list",
+     "edits": [("src/redress/strategies.py", "            failures = sum(1 for _, success in self._events if not success)\n",
+                "            failures = len([1 for _, ok in self._events if not ok])\n")]},
+    {"id": "benign_execute_operation_flag_compared_by_identity",
+     "edits": [(SC, "            if not in_operation:\n", "            if in_operation is False:\n"), (AC, "            if not in_operation:\n", "            if in_operation is False:\n")]},
+    {"id": "benign_abort_answer_in_local",
+     "edits": [(ST, "        if not self.abort_if():\n            return\n", "        requested = self.abort_if()\n        if not requested:\n            return\n")]},
 ]
